@@ -32,7 +32,7 @@ def schemas(tier):
     if tier == "quick":
         want = ("h_reorder", "h_types64_be", "h_gaps", "h_counters_be", "h_extra", "h_refs")
         hs = [S for S in hs if S["package"] in want]
-    return catalogue.view_schemas() + hs + [traitsgen.c18_schema(), traitsgen.c18_text_schema(), traitsgen.c18_quote_schema()]
+    return catalogue.view_schemas() + hs + [traitsgen.c18_schema(), traitsgen.c18_fp_schema(), traitsgen.c18_text_schema(), traitsgen.c18_quote_schema()]
 
 
 # ------------------------------------------------------------ expected -----
@@ -272,7 +272,7 @@ def run(v, tier, seed):
                "found by walking the children tag lists from the schema tag); distinct_nontrivial = schema entities with a trait table",
           samples=samples, schemas=len(Ss), entities=entities, exhaustive=False)
     v.assumptions += ["x86-64 Linux type identities: std::size_t and std::uint64_t are the same type",
-                      "explicit min/max/null values in the schemas are canonical decimal integers or floats that printf(\"%g\") reproduces",
+                      "explicit integer min/max/null values in the schemas are canonical decimal; float/double lexemes are those listed in Traits.tla FpLex (exact hexfloat text per lexeme, binary32 and binary64)",
                       "where the documentation does not determine a trait (offset of constants and of public types with an explicit offset, "
                       "description/deprecated of a <ref> that does not state them, presence of an optional-declared composite field, "
                       "value_type_tag of non-numeric constant fields, default minValue of float/double, explicit min/max/null of char "
